@@ -17,6 +17,7 @@ CLAUSES = {
     "C04.forms.input": 20000,      # phased matrix == unphased projection == raw dosage array (every output)
     "C04.forms.perm": 15000,       # taxon permutation permutes rows and labels together, leaves population summaries alone
     "C04.forms.split": 4000,       # marker partition: partial predictions / genic variances add up, tables concatenate
+    "C04.forms.derived": 40000,   # inputs made by select/delete/adjoin/insert/concat/copy/remove/append: ploidy kept, every statistic right
     "C04.labels": 15000,           # taxa, taxa_grp of the input and trait of the model on every output matrix
     "C04.stats.var": 7000,        # var_A, var_G (population variance of the values), var_a (genic)
     "C04.stats.bulmer": 4000,      # var_A / var_a, NaN exactly when the genic variance is zero
@@ -38,7 +39,10 @@ RULE = ("model cases: seeded class-based genotype arrays (1-120 taxa incl. 49/98
         "phased matrix, unphased projection and raw dosage array (int8/int64/float64), with and without taxa/taxa_grp/trait labels; "
         "responses for R^2 as array, from_numpy object, or constructor-built object whose location/scale are not the mean/sd "
         "of its rows (raw values with location 0 / scale 1, arbitrary location+scale); "
-        "one taxon permutation and one random marker partition (1-4 parts) per case; then a history on the same model object: "
+        "one taxon permutation and one random marker partition (1-4 parts) per case; two inputs per case derived from the phased or "
+        "unphased matrix by the library's own operations (copy, deepcopy, select/delete/adjoin/insert/concat by taxa or markers, generic "
+        "axis forms, in-place remove/append on a copy, select-parts-then-concat, chained selects; all ploidies) and judged on the raw "
+        "calls they must hold; then a history on the same model object: "
         "the *_numpy entry points (gebv/gegv/predict/var_A/var_G/var_a/bulmer/score) called 5-6 times with same-shaped inputs of "
         "different content (one buffer rewritten in place, permutation, allele complement, other dtype), another shape, the first "
         "input again, all ~150 raw outputs of the case kept and re-judged at the end, aliasing tests, caller overwriting the "
@@ -302,6 +306,199 @@ def collect(model, F, fname, ploidy, dom_ok, X, Y, has_misc, held=None):
         for nm in TABLES:
             run(nm, (lambda nm=nm: getattr(model, nm)(F)))
     return out
+
+
+DERIVE_OPS = ["copy", "deepcopy", "select_taxa", "select_vrnt", "delete_taxa", "delete_vrnt", "select(axis=taxa)",
+              "select(axis=vrnt)", "delete(axis=taxa)", "delete(axis=vrnt)", "adjoin_taxa", "adjoin_vrnt", "insert_taxa", "insert_vrnt",
+              "concat_taxa", "concat_vrnt", "concat(axis=taxa)", "concat(axis=vrnt)", "select_vrnt parts + concat_vrnt",
+              "select_taxa parts + concat_taxa", "remove_vrnt on a copy", "remove_taxa on a copy", "append_taxa on a copy",
+              "append_vrnt on a copy", "select_vrnt of select_taxa"]
+
+
+def derive(g, op, F, form, mat, taxa, taxa_grp, vmeta, ploidy):
+    """Obtain a genotype matrix from ``F`` with one of the library's own operations.  Returns (D, rows, cols, matT, matV):
+    the derived object and what it must contain, as row/column indices into [mat | matT] (taxa) and [mat | matV] (markers)."""
+    import copy as _copy
+    _, n, p = mat.shape
+    n2 = int(g.integers(1, 4)); p2 = int(g.integers(1, 4))
+    matT = g.integers(0, 2, (ploidy, n2, p)).astype("int8")
+    matV = g.integers(0, 2, (ploidy, n, p2)).astype("int8")
+    taxaT = None if taxa is None else numpy.array(["x%03d" % i for i in range(n2)], dtype=object)
+    grpT = None if taxa_grp is None else g.integers(0, 3, n2).astype("int64")
+    vmetaV = {}
+    if vmeta:
+        vmetaV = {"vrnt_chrgrp": numpy.full(p2, 9, dtype="int64"), "vrnt_phypos": numpy.arange(1, p2 + 1, dtype="int64"),
+                  "vrnt_name": numpy.array(["v%d" % i for i in range(p2)], dtype=object)}
+
+    def mk(m3, tx, gr, vm):
+        return mk_phased(m3, tx, gr, vm) if form == "phased" else mk_unphased(O.dosage(m3), ploidy, tx, gr, vm)
+
+    allr, allc = numpy.arange(n), numpy.arange(p)
+    tax, vax = F.taxa_axis, F.vrnt_axis
+    sub = lambda k: numpy.sort(g.choice(k, int(g.integers(1, k + 1)), replace=False)) if g.random() < 0.7 else g.integers(0, k, int(g.integers(1, k + 2)))
+    if op == "copy":
+        return _copy.copy(F) if g.random() < 0.5 else F.copy(), allr, allc, matT, matV
+    if op == "deepcopy":
+        return _copy.deepcopy(F) if g.random() < 0.5 else F.deepcopy(), allr, allc, matT, matV
+    if op in ("select_taxa", "select(axis=taxa)"):
+        ix = sub(n)
+        return (F.select_taxa(ix) if op == "select_taxa" else F.select(ix, axis=tax)), ix, allc, matT, matV
+    if op in ("select_vrnt", "select(axis=vrnt)"):
+        ix = sub(p)
+        return (F.select_vrnt(ix) if op == "select_vrnt" else F.select(ix, axis=vax)), allr, ix, matT, matV
+    if op in ("delete_taxa", "delete(axis=taxa)", "remove_taxa on a copy"):
+        if n < 2:
+            return None
+        ix = numpy.unique(g.integers(0, n, int(g.integers(1, n))))
+        if len(ix) == n:
+            ix = ix[:-1]
+        keep = numpy.setdiff1d(allr, ix)
+        if op == "remove_taxa on a copy":
+            D = F.deepcopy(); D.remove_taxa(ix)
+        else:
+            D = F.delete_taxa(ix) if op == "delete_taxa" else F.delete(ix, axis=tax)
+        return D, keep, allc, matT, matV
+    if op in ("delete_vrnt", "delete(axis=vrnt)", "remove_vrnt on a copy"):
+        if p < 2:
+            return None
+        ix = numpy.unique(g.integers(0, p, int(g.integers(1, p))))
+        if len(ix) == p:
+            ix = ix[:-1]
+        keep = numpy.setdiff1d(allc, ix)
+        if op == "remove_vrnt on a copy":
+            D = F.deepcopy(); D.remove_vrnt(ix)
+        else:
+            D = F.delete_vrnt(ix) if op == "delete_vrnt" else F.delete(ix, axis=vax)
+        return D, allr, keep, matT, matV
+    FT = mk(matT, taxaT, grpT, vmeta)
+    FV = mk(matV, taxa, taxa_grp, vmetaV)
+    if op in ("adjoin_taxa", "append_taxa on a copy"):
+        if op == "adjoin_taxa":
+            D = F.adjoin_taxa(FT)
+        else:
+            D = F.deepcopy(); D.append_taxa(FT)
+        return D, numpy.r_[allr, n + numpy.arange(n2)], allc, matT, matV
+    if op in ("adjoin_vrnt", "append_vrnt on a copy"):
+        if op == "adjoin_vrnt":
+            D = F.adjoin_vrnt(FV)
+        else:
+            D = F.deepcopy(); D.append_vrnt(FV)
+        return D, allr, numpy.r_[allc, p + numpy.arange(p2)], matT, matV
+    if op == "insert_taxa":
+        pos = int(g.integers(0, n + 1))
+        return F.insert_taxa(pos, FT), numpy.r_[allr[:pos], n + numpy.arange(n2), allr[pos:]], allc, matT, matV
+    if op == "insert_vrnt":
+        pos = int(g.integers(0, p + 1))
+        return F.insert_vrnt(pos, FV), allr, numpy.r_[allc[:pos], p + numpy.arange(p2), allc[pos:]], matT, matV
+    if op in ("concat_taxa", "concat(axis=taxa)"):
+        first = g.random() < 0.5
+        mats = [F, FT] if first else [FT, F]
+        D = type(F).concat_taxa(mats) if op == "concat_taxa" else type(F).concat(mats, axis=tax)
+        return D, (numpy.r_[allr, n + numpy.arange(n2)] if first else numpy.r_[n + numpy.arange(n2), allr]), allc, matT, matV
+    if op in ("concat_vrnt", "concat(axis=vrnt)"):
+        first = g.random() < 0.5
+        mats = [F, FV] if first else [FV, F]
+        D = type(F).concat_vrnt(mats) if op == "concat_vrnt" else type(F).concat(mats, axis=vax)
+        return D, allr, (numpy.r_[allc, p + numpy.arange(p2)] if first else numpy.r_[p + numpy.arange(p2), allc]), matT, matV
+    if op == "select_vrnt parts + concat_vrnt":
+        k = int(min(p, g.integers(1, 4)))
+        assign = g.permutation(numpy.r_[numpy.arange(k), g.integers(0, k, p - k)])
+        idxs = [numpy.flatnonzero(assign == j) for j in range(k)]
+        return type(F).concat_vrnt([F.select_vrnt(ix) for ix in idxs]), allr, numpy.concatenate(idxs), matT, matV
+    if op == "select_taxa parts + concat_taxa":
+        k = int(min(n, g.integers(1, 4)))
+        assign = g.permutation(numpy.r_[numpy.arange(k), g.integers(0, k, n - k)])
+        idxs = [numpy.flatnonzero(assign == j) for j in range(k)]
+        return type(F).concat_taxa([F.select_taxa(ix) for ix in idxs]), numpy.concatenate(idxs), allc, matT, matV
+    if op == "select_vrnt of select_taxa":
+        ir, ic = sub(n), sub(p)
+        return F.select_taxa(ir).select_vrnt(ic), ir, ic, matT, matV
+    raise ValueError(op)
+
+
+def derived_inputs(ctx, g, coords, wit0, kind, ploidy, mat, taxa, taxa_grp, vmeta, beta, u_a, u_d, trait, forms, nops):
+    """Genotype inputs obtained through the library's own matrix operations (marker parts, taxon subsets, copies, unions) must
+    give the same answers as the raw calls they contain: the statement's 'irrespective of how the markers are split into parts'
+    for parts made by the library, for every ploidy and both matrix classes."""
+    _, n, p = mat.shape
+    t = u_a.shape[1]
+    for _ in range(nops):
+        op = str(g.choice(DERIVE_OPS))
+        form = "phased" if g.random() < 0.4 else "unphased"
+        F = forms[form]
+        pcl = "%s/%s" % (form, "diploid" if ploidy == 2 else "ploidy 1 or 4")
+        site = defsite(F, op.split(" ")[0].split("(")[0])
+        try:
+            r = derive(g, op, F, form, mat, taxa, taxa_grp, vmeta, ploidy)
+        except Exception as e:
+            ctx.raised("%s.%s" % (type(F).__name__, op), e); continue
+        if r is None:
+            continue
+        D, rows, cols, matT, matV = r
+        uV = g.normal(size=(matV.shape[2], t))
+        dV = g.normal(size=(matV.shape[2], t))
+        emat = numpy.concatenate([mat, matT], axis=1)[:, rows, :] if numpy.max(rows, initial=0) >= n else mat[:, rows, :]
+        if numpy.max(cols, initial=0) >= p:
+            emat = numpy.concatenate([mat, matV], axis=2)[:, rows, :][:, :, cols]
+        else:
+            emat = emat[:, :, cols]
+        ua = numpy.concatenate([u_a, uV], axis=0)[cols]
+        ud = None if kind == "A" else numpy.concatenate([numpy.zeros((p, t)) if u_d is None else u_d, dV], axis=0)[cols]
+        w = dict(wit0, operation=op, form=form, rows=brief(rows), cols=brief(cols))
+        okp = getattr(D, "ploidy", None) == ploidy and getattr(D, "ntaxa", None) == emat.shape[1] and getattr(D, "nvrnt", None) == emat.shape[2]
+        ctx.check("C04.forms.derived", bool(okp), site, "derived matrix keeps ploidy and has the expected shape", pcl,
+                  witness=dict(w, ploidy=ploidy, derived_ploidy=brief(getattr(D, "ploidy", None)),
+                               derived_shape=brief(numpy.shape(getattr(D, "mat", None))), expected_shape=list(emat.shape)), coords=coords)
+        if not okp:
+            continue   # the operation itself is the finding; statistics on a mis-shaped / mis-ploidied matrix would only repeat it
+        try:
+            M = mk_model(kind, beta, None, ua, ud, trait)
+        except Exception as e:
+            ctx.raised("construct model for derived input", e); continue
+        ne = emat.shape[1]
+        dos = O.dosage(emat)
+        cnt = O.allele_count(dos)
+        het = O.hetind(dos, ploidy)
+        b0 = O.intercept(beta)
+        eb = O.marker_part(dos, ua)
+        eg = eb if kind == "A" else O.marker_part(dos, ua, het, ud)
+        S = O.value_scale(beta, ua, ud, ploidy); S2 = S * S
+        va, vz = O.genic_var(ua, cnt, ne, ploidy)
+        vA = O.popvar(eb)
+        with numpy.errstate(all="ignore"):
+            bul = numpy.where(vz, numpy.nan, vA / numpy.where(vz, 1.0, va))
+            bt = numpy.where(vz, 1.0, O.tol(S2) * (1.0 + numpy.abs(bul)) / numpy.where(vz, 1.0, va))
+        tabs = O.allele_tables(ua, cnt, ne, ploidy)
+        floats = [("gebv", lambda: M.gebv(D).unscale(), eb + b0[None, :], O.tol(S)), ("gegv", lambda: M.gegv(D).unscale(), eg + b0[None, :], O.tol(S)),
+                  ("var_A", lambda: M.var_A(D), vA, O.tol(S2)), ("var_G", lambda: M.var_G(D), O.popvar(eg), O.tol(S2)),
+                  ("var_a", lambda: M.var_a(D), va, O.tol(S2)), ("bulmer", lambda: M.bulmer(D), bul, bt),
+                  ("fafreq", lambda: M.fafreq(D), tabs["fafreq"], O.tol(1.0)), ("dafreq", lambda: M.dafreq(D), tabs["dafreq"], O.tol(1.0))]
+        for nm, fn, e, tl in floats:
+            try:
+                got = fn()
+            except Exception as ex:
+                ctx.raised("%s on derived input" % defsite(M, nm), ex); continue
+            ok, _ = fclose(got, e, tl)
+            ctx.check("C04.forms.derived", ok, site, "%s on the derived matrix == definition on the raw calls it holds" % nm, pcl,
+                      witness=dict(w, output=nm, got=brief(got), expected=brief(e)), coords=coords)
+        for nm in TABLES:
+            if nm in ("fafreq", "dafreq"):
+                continue
+            try:
+                got = getattr(M, nm)(D)
+            except Exception as ex:
+                ctx.raised("%s on derived input" % defsite(M, nm), ex); continue
+            ctx.check("C04.forms.derived", exact(got, tabs[nm]), site, "%s on the derived matrix == definition on the raw calls it holds" % nm, pcl,
+                      witness=dict(w, output=nm, got=brief(got), expected=brief(tabs[nm])), coords=coords)
+        # labels travel with the rows through the operation and through the model
+        try:
+            etaxa = None if taxa is None else numpy.concatenate([taxa, numpy.array(["x%03d" % i for i in range(matT.shape[1])], dtype=object)])[rows]
+            out = M.gebv(D)
+            ctx.check("C04.labels", same(out.taxa, D.taxa) and (taxa is None or same(out.taxa, etaxa)), site,
+                      "output taxa == taxa of the rows the derived matrix holds", "taxa labels %s" % ("absent" if taxa is None else "present"),
+                      witness=dict(w, got=brief(out.taxa), expected=brief(etaxa)), coords=coords)
+        except Exception as ex:
+            ctx.raised("gebv on derived input", ex)
 
 
 # ---------------------------------------------------------------- model family
@@ -605,6 +802,10 @@ def case_model(ctx, c):
             okall = all(fclose(tabparts[nm], numpy.asarray(whole[nm], dtype=float), 1e-12)[0] for nm in TABLES)
             ctx.check("C04.forms.split", okall, defsite(model, "facount"), "allele tables of the parts concatenate to the whole", scls,
                       witness=w, coords=coords)
+    # ---------------- inputs made by the library's own operations (parts, subsets, copies, unions)
+    if big is None or c % 2:
+        derived_inputs(ctx, g, coords, wit0, kind, ploidy, mat, taxa, taxa_grp, vmeta, beta, u_a, u_d, trait,
+                       {"phased": pg, "unphased": ug}, 2 if big is None else 1)
     # ---------------- history: one long-lived model queried again and again through the array entry points
     # same-shaped inputs with different contents (taxon permutation, allele complement, one buffer rewritten in place), a
     # different shape in between, then the first input again; every result is kept and judged when it is returned and again
